@@ -41,7 +41,8 @@ CHECKS = {
     'C10': ('E1-bfs', 'model_checking',
             'explicit-state BFS over operation histories on the real interpreter vs. reference dict model',
             'All dictionary operation histories up to the stated depth over keys of every hashable kind, aliases and '
-            'literal-holding functions are executed on the real interpreter; result and full reachable dictionary state '
+            'literal-holding functions (one with a dictionary literal as a value, updated in place through the outer one) '
+            'are executed on the real interpreter; result and full reachable dictionary state '
             'are compared with a tagged-key Python dict model after every step. Exhaustive within the alphabet/depth.',
             'States are merged on model contents + alias relation + called-literal set; histories longer than the depth '
             'bound and keys/values outside the alphabet are not covered. Known finding: 0cX and "X" are one key.',
@@ -77,7 +78,7 @@ CHECKS = {
             'exhaustive enumeration of callback scripts x event-loop dispatch latencies (deviation-bounded) on a '
             'virtual-time asyncio loop running the real timer code, vs. a timer reference model',
             'The real .timer/.timerc code runs on a virtual-time loop; every scenario (interval, start, per-tick '
-            'duration/return/action script, external cancels, second timer) is combined with every sequence of '
+            'duration/return/action script, external cancels, redefinition of the callback by the program between ticks, second timer) is combined with every sequence of '
             'dispatch-latency choices (a loop iteration runs every handle due when it starts, as _run_once does) '
             'with at most 1 (quick) / 2 (thorough) deviations; each run is compared tick by '
             'tick with a 40-line timer model (boundaries, no double service, no overlap, stop for good, .timerc '
@@ -93,8 +94,9 @@ CHECKS = {
             'Klong-level forms; results compared with a dict model and the byte accounting / LRU / disk invariants are '
             'evaluated on the real cache object after every operation; keys incl. an alias spelling of a nested key and keys that '
             'collide with a directory / a file of other keys (their set must fail and change nothing). Same for the table '
-            'store (documented merge incl. six rows on equal indexes, read back after every set, and after a program changed '
-            'its own copy of a table it read back).',
+            'store (documented merge incl. six rows on equal indexes and a table without rows, read back after every set, and after a '
+            'program changed its own copy of a table it read back; a second search under a 2000-byte limit with string-column '
+            'tables whose file fits the limit while the loaded frame does not).',
             'memfs replaces the directory (module-level open/os of klongpy.db.file_cache); sequential use only '
             '(concurrency is C18); merging on (model, entries, LRU order, byte total).',
             'DESIGN.md §3 C16'),
@@ -107,7 +109,9 @@ CHECKS = {
             'deviation, bound 1: every single fsync call of every history fails with EIO in turn (a set that then still '
             'returns is held to the durability promise; one that raises counts as interrupted). Two-epoch '
             'histories: a process killed inside a set at every trace position (the page cache survives), a new process does '
-            '[get,] set, power loss at every position of its trace. The memfs trace is checked against strace of the same '
+            '[get,] set, power loss at every position of its trace. Concurrent part: get || set and set || set of one key on the '
+            'real KeyValueStorage under the C18 scheduler, every schedule up to 1 (quick) / 2 (thorough) preemptions, '
+            'linearizability with every returned set taking effect, then every crash image of the complete trace. The memfs trace is checked against strace of the same '
             'history on a real directory.',
             'The persistence model is a model of POSIX, not of one kernel; root directory assumed durable; '
             'kill-at-boundary runs (thorough) keep the page cache.',
@@ -116,10 +120,10 @@ CHECKS = {
             'stateless model checking of the real FileCache under a controlled scheduler: all thread interleavings up '
             'to a preemption bound, brute-force linearizability check per execution',
             'Real FileCache with its lock, executor and file system replaced by scheduler-controlled versions; all '
-            'schedules with <= 1 (quick) / <= 2 (thorough) preemptions of 11 / ~100 small thread configurations; every '
+            'schedules with <= 1 (quick) / <= 2 (thorough) preemptions of 12 / ~100 small thread configurations; every '
             'execution is checked for deadlock, escaped exceptions, linearizability against a register model, and '
             'disk = cache = last update, accounting = sum of entries at quiescence.',
-            'Switches only at scheduling points (lock, submit, task start, future wait, each file-system call, '
+            'Switches only at scheduling points (lock, submit, task start, between a task function\'s return and the completion of its future, future wait, each file-system call, '
             'unlocked accesses to the shared fields); more threads/operations/preemptions than the bound are not '
             'covered. PandasDataFrameCache.update retry loop is not explored concurrently.',
             'DESIGN.md §3 C18, Appendix B, F'),
@@ -185,7 +189,8 @@ CHECKS['C03'] = (
     'hole order; a raising callable at every sub-expression position inside 1-3 nested calls (variables, context depth '
     'and follow-up programs must be as if the call had not happened); conditionals over the truth universe with '
     'logging branches; recursion through .f in functions that declare locals; assignments to x, y, z while globals of '
-    'those names exist; projection arguments rebound between the steps.',
+    'those names exist; projection arguments rebound between the steps; a function used by name as adverb verb whose '
+    'name is rebound between two evaluations of the same node.',
     'The oracle is the interpreter itself on the substituted text (no Klong semantics in the harness). The complete '
     'product of 3-node bodies x all tuples x all forms is too large; the layers enumerated (each completely) are '
     'listed in coverage.bounds. Built by a sub-agent from DESIGN.md.',
@@ -220,7 +225,7 @@ CHECKS['C07'] = (
     'exhaustive fault enumeration: the differentiated function fails at its k-th evaluation for every k, per gradient '
     'form x parameter kind x body x backend, on a fresh real interpreter; typed state snapshots before/after',
     'For every gradient / Jacobian form x parameter kind (float64 vector, int vector, scalar, matrix...) x body '
-    '(smooth, wrong shape, unknown name, string, instrumented probe) x backend, the probe raises at every possible '
+    '(smooth, wrong shape, unknown name, string, instrumented probe, handing back a stored array) x backend, the probe raises at every possible '
     'invocation index; afterwards the typed snapshot of all scopes, f applied to the point, the same gradient text '
     'again and the gradient after rebinding f must equal those of a clean interpreter.',
     'Snapshot compares Python type, dtype, shape, requires_grad and exact element values; functions by identity. '
